@@ -293,6 +293,15 @@ class State:
         return {k: (nh, dict(attrs).get(wire.MED)) for k, (nh, attrs, _l) in self.peer.table.items()}
 
     def canon(self):
+        try:
+            return self._canon_fields()
+        except AttributeError:
+            # the Adj-RIB-Out no longer has the fields the projection names (a refactoring): fall back to a projection
+            # of every instance attribute, insertion order kept - finer (more states) but never merges different futures
+            return ('generic', _generic(vars(self.rib)), self.gen is not None, self.include_withdraw,
+                    tuple(sorted(self.peer.table.items())), tuple(sorted(self.intended.items())), self.dog)
+
+    def _canon_fields(self):
         rib = self.rib
         seen = tuple(sorted((fam, tuple(sorted((i, r.attributes.index(), str(r.nexthop)) for i, r in d.items())))
                             for fam, d in rib._seen.items() if d))
@@ -306,6 +315,35 @@ class State:
                            for n, per in rib._watchdog.items()))
         return (seen, new, naf, pw, ref, wdg, self.gen is not None, self.include_withdraw,
                 tuple(sorted(self.peer.table.items())), tuple(sorted(self.intended.items())), self.dog)
+
+
+def _generic(x, depth=0):
+    """canonical, hashable image of a value made of containers, routes and NLRIs"""
+    import collections
+
+    if isinstance(x, (int, str, bytes, bool, float, type(None))):
+        return x
+    if isinstance(x, (bytearray, memoryview)):
+        return bytes(x)
+    if isinstance(x, dict):
+        return tuple((_generic(k, depth + 1), _generic(v, depth + 1)) for k, v in x.items())
+    if isinstance(x, (list, tuple, collections.deque)):
+        return tuple(_generic(i, depth + 1) for i in x)
+    if isinstance(x, (set, frozenset)):
+        return tuple(sorted(repr(_generic(i, depth + 1)) for i in x))
+    if hasattr(x, 'nlri') and hasattr(x, 'attributes'):
+        return ('route', bytes(x.index()), bytes(x.attributes.index()), str(x.nexthop))
+    if hasattr(x, 'index') and callable(x.index) and hasattr(x, 'pack_nlri'):
+        return ('nlri', bytes(x.index()))
+    if hasattr(x, 'is_set') and callable(x.is_set):
+        return ('event', bool(x.is_set()))
+    if callable(x):
+        return ('callable', getattr(x, '__qualname__', type(x).__name__))
+    if depth < 6 and hasattr(x, '__dict__'):
+        return (type(x).__name__, _generic(vars(x), depth + 1))
+    if depth < 6 and hasattr(x, '__slots__'):
+        return (type(x).__name__, tuple((n, _generic(getattr(x, n, None), depth + 1)) for n in x.__slots__))
+    return (type(x).__name__, str(x))
 
 
 def _key_from_text(route):
